@@ -228,17 +228,22 @@ def b_native(B):
         B.case("detection_dead_first_channel", False, detail=first[:2], inputs={"kind": "dead_channel_0_not_labelled"})
     # per-file labels are the per-channel mode over the batches
     import unittest.mock as um
-    seq = iter([np.array([0, 1, 2, 3]), np.array([0, 1, 0, 3]), np.array([1, 1, 2, 0]), np.array([0, 0, 2, 3]), np.array([0, 1, 2, 3])] * 2)
+    # per batch labels of 6 channels over 10 batches; channel 4 has no strict majority (5 x noisy, 1 x dead, 4 x clear -> mode 2, median 1.5),
+    # channel 5 neither (4 x clear, 3 x dead, 3 x noisy -> mode 0, median 1)
+    table = np.array([[0, 1, 2, 3, 2, 0], [0, 1, 0, 3, 2, 0], [1, 1, 2, 0, 2, 0], [0, 0, 2, 3, 2, 0], [0, 1, 2, 3, 2, 1],
+                      [0, 1, 2, 3, 1, 1], [0, 1, 2, 3, 0, 1], [0, 1, 1, 3, 0, 2], [0, 1, 2, 3, 0, 2], [2, 1, 2, 3, 0, 2]], dtype=float)
+    seq = iter(list(table))
 
     class SR:
-        nc, nsync, fs, rl = 5, 1, 30000.0, 10.0
+        nc, nsync, fs, rl = 7, 1, 30000.0, 10.0
 
         def __getitem__(self, idx):
-            return np.zeros((9000, 4))
-    with um.patch.object(V, "detect_bad_channels", lambda raw, fs: (next(seq).astype(float), {"a": np.zeros(4)})):
+            return np.zeros((9000, 6))
+    with um.patch.object(V, "detect_bad_channels", lambda raw, fs: (next(seq), {"a": np.zeros(6)})):
         with um.patch.object(V.spikeglx, "Reader", SR):
             flags = V.detect_bad_channels_cbin(SR(), n_batches=10)
-    B.case("cbin_mode", np.array_equal(np.ravel(flags), [0, 1, 2, 3]), detail=f"mode over batches gave {np.ravel(flags).tolist()}")
+    want_mode = [0, 1, 2, 3, 2, 0]
+    B.case("cbin_mode", np.array_equal(np.ravel(flags), want_mode), detail=f"labels from the file {np.ravel(flags).tolist()} instead of the per-channel mode {want_mode}")
 
 
 # ----------------------------------------------------------------------------- detect_bad_channels: the recommendation tail
